@@ -72,6 +72,14 @@ def jobs(tier, seed, pool):
     rng = Rng(seed, PROP, 'builders')
     for init in builder_inits(rng, 400 if tier == 'quick' else 6000, tier):
         out.append({'plan': {'property': PROP, 'profile': 'roundtrip', 'init': init, 'timeout_s': 8}, 'meta': {'kind': 'builder'}})
+    return _with_reuse(out, seed)
+
+
+def _with_reuse(out, seed):
+    """a quarter of the runs keep one NifFile object across the loads of a cycle (F-REUSE)"""
+    for i, j in enumerate(out):
+        if Rng(seed, PROP, 'reuse', i).chance(0.25):
+            j['plan']['reuse_object'] = True
     return out
 
 
